@@ -27,11 +27,11 @@ PLANS = {
     'C06': {'jobs': [J('chan', W124, 4), J('chan', [2], 2, 'asan'), S('chanrace', [1, 2, 4], 2)]},
     'C07': {'jobs': [J('dis', W124, 3), J('disrx', W124, 1), J('dis', [2], 1, 'asan'), S('disrace', W124, 2)]},
     'C08': {'jobs': [J('tmr', W124, 3), J('tmrmix', W124, 1), J('tmr', [2, 4], 1, 'asan'), S('tmrrace', W124, 2)]},
-    'C09': {'jobs': [J('can', W124, 3), J('mutexc', [2], 1), J('semc', [1, 2], 1), J('cvc', [2], 1), J('rwc', [2], 1), J('iocan', [2], 1),
+    'C09': {'jobs': [J('can', W124, 3), J('mutexc', [2], 1), J('semc', [1, 2], 1), J('cvc', [2], 1), J('relock', [2], 1), J('rwc', [2], 1), J('rwcr', [2], 1), J('iocan', [2], 1),
                      J('can', [2, 4], 1, 'asan'), S('hsmutex', [2], 1), S('hssem', [2], 1)]},
     'C10': {'jobs': [J('sem', W124, 2), J('semc', W124, 1), J('flag', W124, 1), J('semc', [2], 1, 'asan'), S('hssem', [2, 4], 2), S('semrace', [2, 4], 1)]},
-    'C11': {'jobs': [J('cv', W124, 2), J('cvc', W124, 1), J('bar', W124, 1), J('cvc', [2], 1, 'asan'), S('cvrace', [2, 4], 2)]},
-    'C12': {'jobs': [J('rwseq', [1], 2), J('rw', W124, 2), J('rwc', W124, 2), J('rwseq', [1], 1, 'rel'), J('rw', [2], 1, 'rel'),
+    'C11': {'jobs': [J('cv', W124, 2), J('cvc', W124, 1), J('relock', W124, 1), J('bar', W124, 1), J('cvc', [2], 1, 'asan'), S('cvrace', [2, 4], 2)]},
+    'C12': {'jobs': [J('rwseq', [1], 2), J('rw', W124, 2), J('rwc', W124, 2), J('rwcr', W124, 1), J('rwseq', [1], 1, 'rel'), J('rw', [2], 1, 'rel'),
                      J('rw', [2, 4], 1, 'asan', thorough_only=True)]},
     'C13': {'jobs': [J('pan', W124, 3), J('pan', [2, 4], 2, 'asan')]},
     'C14': {'jobs': [J('scope', W124, 3), J('selc', W124, 1), J('scope', [2, 4], 1, 'asan'), J('selc', [2], 1, 'asan')]},
